@@ -50,7 +50,7 @@ func (k Keeper) ListDataRegistryEntryKeys(ctx sdk.Context) []string {
 
 // AllDataRegistry returns all of data registry
 func (k Keeper) AllDataRegistry(ctx sdk.Context) map[string]*types.DataRegistryEntry {
-	var dataRegistry map[string]*types.DataRegistryEntry
+	dataRegistry := make(map[string]*types.DataRegistryEntry)
 
 	keys := k.ListDataRegistryEntryKeys(ctx)
 
